@@ -47,11 +47,13 @@ structure Session where
   needPw : Bool := false       -- isPasswordNeeded (PolicyPassword)
   pcc : Nat := 0               -- commandCode fixed by PolicyCommandCode, 0 = none
   sym : Nat := 0               -- parameter encryption: 0 none, 1 XOR with SHA-256, 2 AES-128-CFB
+  pcrCtr : Nat := 0            -- pcrCounter: value of the TPM's PCR update counter at the first PolicyPCR, 0 = none
   deriving Repr
 
 structure St where
   ents : List Entity := []
   sess : List Session := []
+  pcrCounter : Nat := 0        -- gr.pcrCounter as last observed (PCR_Read's pcrUpdateCounter)
 
 /-- one entry of the command's authorization area -/
 structure AuthIn where
@@ -183,6 +185,7 @@ inductive Check where
   | unavailable       -- TPM_RC_AUTH_UNAVAILABLE
   | authType          -- TPM_RC_AUTH_TYPE
   | badAttributes     -- TPM_RC_ATTRIBUTES (audit attribute on a policy or password session)
+  | pcrChanged        -- TPM_RC_PCR_CHANGED: a PCR was updated after the session's PolicyPCR
   | noSession
   deriving Repr, DecidableEq
 
@@ -193,7 +196,10 @@ def hmacCheck (s : Session) (key : Bytes) (cph : Bytes) (a : AuthIn) : Check :=
 
 def pwCheck (e : Entity) (a : AuthIn) : Check := if stripZeros a.hmac == e.auth then .pass else .failAuth
 
-/-- `CheckPolicyAuthSession` (timeout, locality, PP, cpHash/nameHash, nvWritten, PCR left out: the harness never sets them) -/
+/-- `SessionPCRValueIsCurrent`: no PolicyPCR on this session, or no counted PCR update since -/
+def pcrCurrent (g : Nat) (s : Session) : Bool := s.pcrCtr == 0 || s.pcrCtr == g
+
+/-- `CheckPolicyAuthSession` after the PCR currency test (timeout, locality, PP, cpHash/nameHash, nvWritten left out: the harness never sets them) -/
 def policyCheck (s : Session) (e : Entity) (cc : Nat) (r : Role) : Check :=
   if s.pDigest ≠ e.policy then .failPolicy
   else if s.pcc ≠ 0 then (if s.pcc ≠ cc then .failPolicyCC else .pass)
@@ -217,6 +223,7 @@ def checkOne (st : St) (e : Entity) (cc : Nat) (r : Role) (cph : Bytes) (a : Aut
         else hmacCheck s (hmacKey s e) cph a
       else
         if !policyAvail e cc r then .unavailable
+        else if !pcrCurrent st.pcrCounter s then .pcrChanged
         else match policyCheck s e cc r with
           | .pass => if s.needPw then pwCheck e a else hmacCheck s (s.key ++ (if s.needAuth then e.auth else [])) cph a
           | bad => bad
@@ -288,7 +295,9 @@ def CC_PolicyAuthValue : Nat := 0x16B
 def CC_PolicyCommandCode : Nat := 0x16C
 def CC_PolicyOR : Nat := 0x171
 def CC_PolicyPassword : Nat := 0x18C
+def CC_PolicyPCR : Nat := 0x17F
 def RC_VALUE : Nat := 0x084
+def RC_PCR_CHANGED : Nat := 0x128
 
 inductive PolicyOp where
   | authValue
@@ -296,12 +305,20 @@ inductive PolicyOp where
   | commandCode (code : Nat)
   | or (digests : List Bytes)
   | restart
+  /-- PolicyPCR: the marshalled selection, the concatenated current values of the selected PCR, the digest the caller
+      supplied (may be empty) and the TPM's PCR update counter -/
+  | pcr (sel values given : Bytes) (g : Nat)
   deriving Repr
 
 /-- PolicyOR is accepted by a trial session always, by a real session when the current digest is listed -/
 def orOk (s : Session) (ds : List Bytes) : Bool := s.trial || ds.contains s.pDigest
 /-- PolicyCommandCode is refused when a different command code is already fixed -/
 def ccConflict (s : Session) (code : Nat) : Bool := s.pcc != 0 && s.pcc != code
+
+/-- policyDigest' = H(policyDigest ‖ TPM_CC_PolicyPCR ‖ pcrs ‖ digestTPM) -/
+def pcrExtend (old sel pcrDigest : Bytes) : Bytes := hash sha256 (old ++ be32 CC_PolicyPCR ++ sel ++ pcrDigest)
+/-- a digest supplied by the caller must be the digest of the current values -/
+def pcrGivenBad (values given : Bytes) : Bool := given != [] && given != hash sha256 values
 
 /-- one policy command on a policy/trial session: new session and return code (0 = success; otherwise the base code) -/
 def policyStep (s : Session) : PolicyOp → Session × Nat
@@ -314,11 +331,17 @@ def policyStep (s : Session) : PolicyOp → Session × Nat
       if orOk s ds then
         ({ s with pDigest := hash sha256 (List.replicate 32 0 ++ be32 CC_PolicyOR ++ ds.flatten) }, 0)
       else (s, RC_VALUE)
-  | .restart => ({ s with pDigest := List.replicate 32 0, needAuth := false, needPw := false, pcc := 0 }, 0)
+  | .restart => ({ s with pDigest := List.replicate 32 0, needAuth := false, needPw := false, pcc := 0, pcrCtr := 0 }, 0)
+  | .pcr sel values given g =>
+      if s.trial then
+        ({ s with pDigest := pcrExtend s.pDigest sel (if given = [] then hash sha256 values else given) }, 0)
+      else if !pcrCurrent g s then (s, RC_PCR_CHANGED)
+      else if pcrGivenBad values given then (s, RC_VALUE)
+      else ({ s with pDigest := pcrExtend s.pDigest sel (hash sha256 values), pcrCtr := g }, 0)
 
 /-- after a policy session authorized a command its policy data is reset (`SessionResetPolicyData`) -/
 def resetPolicy (s : Session) : Session :=
-  if s.policy then { s with pDigest := List.replicate 32 0, needAuth := false, needPw := false, pcc := 0 } else s
+  if s.policy then { s with pDigest := List.replicate 32 0, needAuth := false, needPw := false, pcc := 0, pcrCtr := 0 } else s
 
 /-- after a successful command the session's nonceTPM is the one in the response -/
 def St.rollNonce (st : St) (sh : Nat) (n : Bytes) : St :=
